@@ -41,7 +41,9 @@ orc_init (void)
 {
   static int inited = FALSE;
 
-  if (!inited) {
+  /* The flag is only ever examined under the mutex: an unlocked early
+   * check would be a data race with the locked write below. */
+  {
     orc_global_mutex_lock ();
     if (!inited) {
       ORC_ASSERT(sizeof(OrcExecutor) == sizeof(OrcExecutorAlt));
